@@ -456,7 +456,67 @@ fn p_serial(r: &mut Rng, n: usize) -> Vec<Case> {
     vec![simple(r, format!("z{}", n), variant, kind, vt, 30, 40, 20)]
 }
 
+/// Scale case for order independence: one symbol occurs more than 2^16 times across the patterns
+/// (a counter narrower than 32 bits would saturate or be rescaled mid-way), with a few short
+/// patterns over rare symbols — whose frequency ranks are close — placed before, inside and after
+/// the heavy block, so that the harness's reversed / shuffled registrations move them across it.
+fn p_heavy(r: &mut Rng, n: usize) -> Vec<Case> {
+    let variant = if r.pct(75) { 'C' } else { 'B' };
+    let utf8 = variant == 'C';
+    let heavy: Sym = if utf8 { r.pick(&[0x61, 0xe9, 0x3042]) } else { r.pick(&[0x00, 0x61, 0xff]) };
+    let rare: Vec<Sym> = if utf8 { vec![0x62, 0x63, 0x64, 0xe8, 0x3044] } else { vec![0x62, 0x63, 0x64, 0x01, 0xfe] };
+    let lo = r.range(560, 620);
+    let mut total = 0usize;
+    let mut block: Vec<Word> = vec![];
+    let mut k = lo;
+    let goal = if r.pct(25) { 135_000 } else { 67_000 };
+    while total < goal {
+        block.push(vec![heavy; k]);
+        total += k;
+        k += 1;
+    }
+    let mut extras: Vec<Word> = vec![];
+    for _ in 0..r.range(3, 6) {
+        let c = r.pick(&rare);
+        let mut w = vec![c; r.range(1, 4)];
+        if r.pct(30) {
+            w.push(r.pick(&rare));
+        }
+        extras.push(w);
+    }
+    let extras = dedup(extras);
+    let mut set: Vec<Word> = vec![];
+    let cut = r.below(block.len());
+    for (i, w) in extras.iter().enumerate() {
+        if i % 3 == 0 {
+            set.push(w.clone());
+        }
+    }
+    set.extend_from_slice(&block[..cut]);
+    for (i, w) in extras.iter().enumerate() {
+        if i % 3 == 1 {
+            set.push(w.clone());
+        }
+    }
+    set.extend_from_slice(&block[cut..]);
+    for (i, w) in extras.iter().enumerate() {
+        if i % 3 == 2 {
+            set.push(w.clone());
+        }
+    }
+    let mut hs: Vec<Word> = vec![vec![heavy; 8], extras.concat()];
+    let mut h = vec![heavy; lo + 2];
+    h.extend_from_slice(&extras[0]);
+    hs.push(h);
+    let kind = r.below(2) as u8;
+    let vals = values(r, "u32", set.len());
+    vec![mk(Spec { id: format!("hv{}", n), variant, kind, nfb: pick_nfb(r), entry: 'V', vt: "u32" }, utf8, &set, Some(&vals), &hs)]
+}
+
 fn p_perm(r: &mut Rng, n: usize) -> Vec<Case> {
+    if n % 48 == 17 {
+        return p_heavy(r, n);
+    }
     let variant = r.pick(&['B', 'C']);
     let utf8 = variant == 'C';
     let a = small_alpha(r, utf8, TIERS);
